@@ -191,7 +191,7 @@ func errClass(err error) string {
 
 var idxKeys = []string{"a", "ab", "abc", "b", "x", "ax", "", "b", "a"}
 var idxGroups = []string{"g", "h", "g", "n"}
-var idxIDs = []string{"1", "2", "3", "4", "a.b"}
+var idxIDs = []string{"1", "2", "3", "4", "a.b", "s1"} // s1 is also the id Init seeds
 
 func (d *idxDom) Gen(r *gen.R, tier string, emit func(string)) {
 	blocks := 250
